@@ -242,7 +242,7 @@ package corerad
 //@ func (*Advertiser).buildRA
 //@   ghost local logged Int
 //@   requires P1: advOK(a) && ifiOK(ifi)
-//@   assigns new heap(ndp.RouterAdvertisement), new mem(ndp.Option), new heap(ndp.PrefixInformation), new heap(ndp.RouteInformation), new heap(ndp.RecursiveDNSServer), new heap(ndp.DNSSearchList), new heap(ndp.MTU), new heap(ndp.LinkLayerAddress), new mem(netip.Addr), new mem(netip.Prefix), new mem(system.IP), new mem(system.Route), new mem(config.Misconfiguration), ghost.clockRead, ghost.lastAddrs, ghost.lastRoutes, ghost.fwdVal, ghost.fwdName, ghost.fwdFresh
+//@   assigns new heap(ndp.RouterAdvertisement), new mem(ndp.Option), new heap(ndp.PrefixInformation), new heap(ndp.RouteInformation), new heap(ndp.RecursiveDNSServer), new heap(ndp.DNSSearchList), new heap(ndp.MTU), new heap(ndp.LinkLayerAddress), new mem(netip.Addr), new mem(netip.Prefix), new mem(system.IP), new mem(system.Route), new mem(config.Misconfiguration), ghost.clockRead, ghost.now, ghost.lastAddrs, ghost.lastRoutes, ghost.fwdVal, ghost.fwdName, ghost.fwdFresh
 //@   at call logf(la, lformat, largs): ghost.logged = ghost.logged + 1
 //@   loop 1 invariant B0 [C04]: 0 <= rangeindex + 1 && rangeindex + 1 <= len(ms) && ghost.logged == rangeindex + 1 && len(ms) <= 1 && (len(ms) == 1 ==> ms[0] == 1)
 //@   ensures E1 [C04,C01,C08]: result1 == nil ==> result0 != nil && raHeaderFrom(result0, ifi) && result0.RouterLifetime == ite(ghost.fwdVal, ifi.DefaultLifetime, 0) && optsSorted(result0.Options) && optsKnown(result0.Options) && fresh(result0)
@@ -253,7 +253,7 @@ package corerad
 
 //@ func (*Advertiser).send
 //@   requires P1: advOK(a) && ifiOK(cfg) && conn != nil
-//@   assigns new heap(ndp.RouterAdvertisement), new mem(ndp.Option), new heap(ndp.PrefixInformation), new heap(ndp.RouteInformation), new heap(ndp.RecursiveDNSServer), new heap(ndp.DNSSearchList), new heap(ndp.MTU), new heap(ndp.LinkLayerAddress), new mem(netip.Addr), new mem(netip.Prefix), new mem(system.IP), new mem(system.Route), new mem(config.Misconfiguration), ghost.clockRead, ghost.lastAddrs, ghost.lastRoutes, ghost.fwdVal, ghost.fwdName, ghost.fwdFresh, ghost.writes, ghost.lastWriteDst, ghost.lastWriteMsg
+//@   assigns new heap(ndp.RouterAdvertisement), new mem(ndp.Option), new heap(ndp.PrefixInformation), new heap(ndp.RouteInformation), new heap(ndp.RecursiveDNSServer), new heap(ndp.DNSSearchList), new heap(ndp.MTU), new heap(ndp.LinkLayerAddress), new mem(netip.Addr), new mem(netip.Prefix), new mem(system.IP), new mem(system.Route), new mem(config.Misconfiguration), ghost.clockRead, ghost.now, ghost.lastAddrs, ghost.lastRoutes, ghost.fwdVal, ghost.fwdName, ghost.fwdFresh, ghost.writes, ghost.lastWriteDst, ghost.lastWriteMsg
 //@   ensures S1 [C07]: cfg.UnicastOnly && addrIsMulticast(dst) ==> result == nil && ghost.writes == old(ghost.writes)
 //@   ensures S2 [C07,C08]: ghost.writes <= old(ghost.writes) + 1 && (ghost.writes == old(ghost.writes) + 1 ==> ghost.lastWriteDst == dst && isType(ghost.lastWriteMsg, "*ndp.RouterAdvertisement") && raHeaderFrom(as(ghost.lastWriteMsg, "*ndp.RouterAdvertisement"), cfg) && as(ghost.lastWriteMsg, "*ndp.RouterAdvertisement").RouterLifetime == ite(ghost.fwdVal, cfg.DefaultLifetime, 0))
 //@   ensures S3 [C07]: result == nil && !(cfg.UnicastOnly && addrIsMulticast(dst)) ==> ghost.writes == old(ghost.writes) + 1
@@ -290,7 +290,7 @@ package corerad
 //@ func (*Advertiser).shutdown
 //@   ghost local term Bool
 //@   requires P1: advOK(a) && ifiOK(a.cfg) && conn != nil && a.terminate != nil
-//@   assigns new heap(ndp.RouterAdvertisement), new mem(ndp.Option), new heap(ndp.PrefixInformation), new heap(ndp.RouteInformation), new heap(ndp.RecursiveDNSServer), new heap(ndp.DNSSearchList), new heap(ndp.MTU), new heap(ndp.LinkLayerAddress), new mem(netip.Addr), new mem(netip.Prefix), new mem(system.IP), new mem(system.Route), new mem(config.Misconfiguration), ghost.clockRead, ghost.lastAddrs, ghost.lastRoutes, ghost.fwdVal, ghost.fwdName, ghost.fwdFresh, ghost.writes, ghost.lastWriteDst, ghost.lastWriteMsg
+//@   assigns new heap(ndp.RouterAdvertisement), new mem(ndp.Option), new heap(ndp.PrefixInformation), new heap(ndp.RouteInformation), new heap(ndp.RecursiveDNSServer), new heap(ndp.DNSSearchList), new heap(ndp.MTU), new heap(ndp.LinkLayerAddress), new mem(netip.Addr), new mem(netip.Prefix), new mem(system.IP), new mem(system.Route), new mem(config.Misconfiguration), ghost.clockRead, ghost.now, ghost.lastAddrs, ghost.lastRoutes, ghost.fwdVal, ghost.fwdName, ghost.fwdFresh, ghost.writes, ghost.lastWriteDst, ghost.lastWriteMsg
 //@   at call terminate() (tr): ghost.term = tr
 //@   ensures T1 [C08]: !ghost.term ==> ghost.writes == old(ghost.writes)
 //@   ensures T2 [C08]: ghost.writes <= old(ghost.writes) + 1
@@ -442,7 +442,7 @@ package corerad
 //@   ghost local nproblems Int
 //@   requires P1: advOK(a) && ifiOK(a.cfg) && m != nil && m.val > 0
 //@   requires P2: isRA(m) ==> optsOK(as(m, "*ndp.RouterAdvertisement").Options)
-//@   assigns new heap(ndp.RouterAdvertisement), new mem(ndp.Option), new heap(ndp.PrefixInformation), new heap(ndp.RouteInformation), new heap(ndp.RecursiveDNSServer), new heap(ndp.DNSSearchList), new heap(ndp.MTU), new heap(ndp.LinkLayerAddress), new mem(netip.Addr), new mem(netip.Prefix), new mem(system.IP), new mem(system.Route), new mem(config.Misconfiguration), new heap(corerad.problems), new mem(corerad.problem), new mem(*ndp.DNSSearchList), new mem(*ndp.PrefixInformation), new mem(*ndp.RecursiveDNSServer), new mem(*ndp.RouteInformation), ghost.clockRead, ghost.lastAddrs, ghost.lastRoutes, ghost.fwdVal, ghost.fwdName, ghost.fwdFresh, ghost.advReceived, ghost.invalid, ghost.inconsistencies, ghost.hookCalls
+//@   assigns new heap(ndp.RouterAdvertisement), new mem(ndp.Option), new heap(ndp.PrefixInformation), new heap(ndp.RouteInformation), new heap(ndp.RecursiveDNSServer), new heap(ndp.DNSSearchList), new heap(ndp.MTU), new heap(ndp.LinkLayerAddress), new mem(netip.Addr), new mem(netip.Prefix), new mem(system.IP), new mem(system.Route), new mem(config.Misconfiguration), new heap(corerad.problems), new mem(corerad.problem), new mem(*ndp.DNSSearchList), new mem(*ndp.PrefixInformation), new mem(*ndp.RecursiveDNSServer), new mem(*ndp.RouteInformation), ghost.clockRead, ghost.now, ghost.lastAddrs, ghost.lastRoutes, ghost.fwdVal, ghost.fwdName, ghost.fwdFresh, ghost.advReceived, ghost.invalid, ghost.inconsistencies, ghost.hookCalls
 //@   at call verifyRAs(va, vb) (vps): ghost.nproblems = len(vps)
 //@   loop 1 invariant L0 [C12]: 0 <= rangeindex + 1 && rangeindex + 1 <= len(problems) && ghost.inconsistencies == old(ghost.inconsistencies) + rangeindex + 1 && ghost.hookCalls == old(ghost.hookCalls) && ghost.invalid == old(ghost.invalid) && ghost.advReceived == old(ghost.advReceived) + 1 && len(problems) == ghost.nproblems && advOK(a)
 //@   ensures H1 [C07]: isRS(m) ==> result1 == nil && result0 == ite(addrIsUnspecified(host), allNodesAddr, host)
@@ -564,9 +564,9 @@ package corerad
 // state, regenerate the RA with that forwarding flag and report on it.
 //@ func (*Metrics).constScrape
 //@   requires P1: m.state != nil && metrics != nil && forall(k, "Int", has(metrics, k) ==> knownConstMetric(k) && metrics[k] != nil)
-//@   requires P2: forall(i, 0, len(m.ifis), ifiOK(m.ifis[i]))
-//@   assigns new heap(ndp.RouterAdvertisement), new mem(ndp.Option), new heap(ndp.PrefixInformation), new heap(ndp.RouteInformation), new heap(ndp.RecursiveDNSServer), new heap(ndp.DNSSearchList), new heap(ndp.MTU), new heap(ndp.LinkLayerAddress), new mem(netip.Addr), new mem(netip.Prefix), new mem(system.IP), new mem(system.Route), new mem(config.Misconfiguration), new mem(*ndp.DNSSearchList), new mem(*ndp.PrefixInformation), new mem(*ndp.RecursiveDNSServer), new mem(*ndp.RouteInformation), ghost.clockRead, ghost.lastAddrs, ghost.lastRoutes, ghost.fwdVal, ghost.fwdName, ghost.fwdFresh, ghost.samples
-//@   loop 1 invariant L1 [C17,C04]: 0 <= rangeindex + 1 && rangeindex + 1 <= len(m.ifis) && m.state != nil && metrics != nil && forall(k, "Int", has(metrics, k) ==> knownConstMetric(k) && metrics[k] != nil) && forall(i, 0, len(m.ifis), ifiOK(m.ifis[i]))
+//@   requires P2: forall(i, 0, len(m.ifis), ifiCfgOK(m.ifis[i]))
+//@   assigns new heap(ndp.RouterAdvertisement), new mem(ndp.Option), new heap(ndp.PrefixInformation), new heap(ndp.RouteInformation), new heap(ndp.RecursiveDNSServer), new heap(ndp.DNSSearchList), new heap(ndp.MTU), new heap(ndp.LinkLayerAddress), new mem(netip.Addr), new mem(netip.Prefix), new mem(system.IP), new mem(system.Route), new mem(config.Misconfiguration), new mem(*ndp.DNSSearchList), new mem(*ndp.PrefixInformation), new mem(*ndp.RecursiveDNSServer), new mem(*ndp.RouteInformation), ghost.clockRead, ghost.now, ghost.lastAddrs, ghost.lastRoutes, ghost.fwdVal, ghost.fwdName, ghost.fwdFresh, ghost.samples
+//@   loop 1 invariant L1 [C17,C04]: 0 <= rangeindex + 1 && rangeindex + 1 <= len(m.ifis) && m.state != nil && metrics != nil && forall(k, "Int", has(metrics, k) ==> knownConstMetric(k) && metrics[k] != nil) && forall(i, 0, len(m.ifis), ifiCfgOK(m.ifis[i]))
 //@   at call collectMetrics(cm, cctx): assert S1 [C17,C04]: cctx.Interface == ifi.Name && cctx.Advertising == ifi.Advertise && cctx.Monitoring == ifi.Monitor && cctx.Autoconfiguration == auto && cctx.Forwarding == fwd && (ifi.Advertise ==> cctx.Advertisement != nil && fwd == ghost.fwdVal && ghost.fwdName == ifi.Name && cctx.Advertisement.RouterLifetime == ite(fwd, ifi.DefaultLifetime, 0) && raHeaderFrom(cctx.Advertisement, ifi) && len(cctx.Misconfigurations) == b2i(!fwd && ifi.DefaultLifetime > 0)) && (!ifi.Advertise ==> cctx.Advertisement == nil && len(cctx.Misconfigurations) == 0)
 //@   opt safety [C17]
 //@   opt frame [C17]
